@@ -41,13 +41,24 @@ def sh(cmd, cwd=None, env=None, timeout=None, check=False, stdin=None):
     if env:
         e.update(env)
     t0 = time.time()
+    # own process group, so that a timeout kills grandchildren too (go test -> test binary -> spinning goroutines)
+    p = subprocess.Popen(cmd, cwd=cwd, env=e, stdout=subprocess.PIPE, stderr=subprocess.STDOUT,
+                         stdin=(subprocess.PIPE if stdin is not None else subprocess.DEVNULL), text=True, errors='replace',
+                         start_new_session=True)
     try:
-        p = subprocess.run(cmd, cwd=cwd, env=e, timeout=timeout, stdout=subprocess.PIPE,
-                           stderr=subprocess.STDOUT, input=stdin, text=True, errors='replace')
-        rc, out = p.returncode, p.stdout
-    except subprocess.TimeoutExpired as ex:
-        rc, out = 124, (ex.stdout or '') if isinstance(ex.stdout, str) else (ex.stdout or b'').decode('utf8', 'replace')
-        out += '\n[timeout after %ss]' % timeout
+        out, _ = p.communicate(input=stdin, timeout=timeout)
+        rc = p.returncode
+    except subprocess.TimeoutExpired:
+        import signal
+        try:
+            os.killpg(p.pid, signal.SIGKILL)
+        except OSError:
+            pass
+        try:
+            out, _ = p.communicate(timeout=30)
+        except Exception:
+            out = ''
+        rc, out = 124, (out or '') + '\n[timeout after %ss]' % timeout
     if check and rc != 0:
         raise RuntimeError('command failed (%d): %s\n%s' % (rc, cmd, out[-4000:]))
     return rc, out, time.time() - t0
